@@ -316,7 +316,7 @@ class Ctx:
         return True
 
     def _write_replay(self, key, case, msg):
-        d = os.path.join(VERIF, 'replays', self.pid)
+        d = os.path.join(os.environ.get('VERIF_REPLAY_DIR') or os.path.join(VERIF, 'replays'), self.pid)
         os.makedirs(d, exist_ok=True)
         body = {'property': self.pid, 'key': key, 'msg': msg, 'seed': self.seed,
                 'tier': self.tier, 'case': case}
@@ -362,8 +362,9 @@ class Ctx:
             'wall_s': round(time.time() - self.t0, 2),
             'violations': self.n_violations,
         }
-        os.makedirs(os.path.join(VERIF, 'evidence'), exist_ok=True)
-        path = os.path.join(VERIF, 'evidence', self.pid + '.json')
+        evdir = os.environ.get('VERIF_EVIDENCE_DIR') or os.path.join(VERIF, 'evidence')
+        os.makedirs(evdir, exist_ok=True)
+        path = os.path.join(evdir, self.pid + '.json')
         tmp = path + '.tmp'
         with open(tmp, 'w') as f:
             json.dump(ev, f, indent=1, sort_keys=True, default=repr)
